@@ -59,6 +59,11 @@ impl Hs {
         }
         if self.downloader || self.crowded || self.fullqueue {
             v.extend(["KeepAlive", "Interested", "Have"].iter().map(|s| s.to_string()));
+            if self.downloader {
+                // choke state before any handshake: an Unchoke would flush the announcements that the
+                // task holds back for a peer that chokes us
+                v.extend(["Unchoke", "Choke"].iter().map(|s| s.to_string()));
+            }
             if self.crowded {
                 v.push("R".to_string());
             }
@@ -98,6 +103,7 @@ fn event_bytes(w: &World, sym: &str) -> Vec<u8> {
         "Interested" => refwire::encode(&Msg::Interested),
         "NotInterested" => refwire::encode(&Msg::NotInterested),
         "Unchoke" => refwire::encode(&Msg::Unchoke),
+        "Choke" => refwire::encode(&Msg::Choke),
         "Request" => refwire::encode(&Msg::Request(0, 0, 5)),
         "Have" => refwire::encode(&Msg::Have(0)),
         "KeepAlive" => refwire::encode(&Msg::KeepAlive),
@@ -359,7 +365,7 @@ pub fn run(ctx: &Ctx) -> Outcome {
     explore::stats_outcome(&total, &mut o);
     o.set("scenarios", Value::Array(per));
     o.set("single_bit_hash_corruptions", json!(bit_runs));
-    o.set("rule", json!(format!("BFS to depth {} over the alphabet [HS:good, HS:hash0, HS:hash159, HS:otherid (outgoing only), HS:pstr, HS:pstrlen, HS:trunc, {}] on an outgoing and an incoming connection, manager owning both pieces; -crowded variants: ten manager-only peers hold all regular upload slots, every connection has reported rates, and R (one real choke rotation) may happen at any point of the handshake phase; -fullqueue variants: Z (the manager becomes busy and 64 statistics reports of the rest of the swarm fill its command queue to the last slot) and W (it comes back and works the queue off) around the handshake events, so the task's last words to the manager find no free slot; -while-downloading variants: the client owns nothing, a second connection D (honest seeder) completes pieces at any point (event Dp, so the manager announces them to every connection task) while the connection under test sends good / corrupted handshakes, KeepAlive, Interested, Have; a state is the canonical snapshot of manager + connection task + files + monitor; histories end when the connection task ended. Plus all 160 single-bit corruptions of the info-hash as first message, both directions. Plus three full-session scenarios borrowed from C02 (identity-*): a re-announce lists a connected address followed by a new one, whose peer presents its own announced id (must stay connected) or the id of the connected peer (must be dropped); a host re-listed under a new id. Plus four exchanges with the real session's accept path over loopback TCP (real clock): a dial-in peer stays silent / sends a handshake for another torrent / a good handshake / a Bitfield before any handshake.", depth, PLAIN.join(", "))));
+    o.set("rule", json!(format!("BFS to depth {} over the alphabet [HS:good, HS:hash0, HS:hash159, HS:otherid (outgoing only), HS:pstr, HS:pstrlen, HS:trunc, {}] on an outgoing and an incoming connection, manager owning both pieces; -crowded variants: ten manager-only peers hold all regular upload slots, every connection has reported rates, and R (one real choke rotation) may happen at any point of the handshake phase; -fullqueue variants: Z (the manager becomes busy and 64 statistics reports of the rest of the swarm fill its command queue to the last slot) and W (it comes back and works the queue off) around the handshake events, so the task's last words to the manager find no free slot; -while-downloading variants: the client owns nothing, a second connection D (honest seeder) completes pieces at any point (event Dp, so the manager announces them to every connection task) while the connection under test sends good / corrupted handshakes, KeepAlive, Interested, Have, Unchoke, Choke; a state is the canonical snapshot of manager + connection task + files + monitor; histories end when the connection task ended. Plus all 160 single-bit corruptions of the info-hash as first message, both directions. Plus three full-session scenarios borrowed from C02 (identity-*): a re-announce lists a connected address followed by a new one, whose peer presents its own announced id (must stay connected) or the id of the connected peer (must be dropped); a host re-listed under a new id. Plus four exchanges with the real session's accept path over loopback TCP (real clock): a dial-in peer stays silent / sends a handshake for another torrent / a good handshake / a Bitfield before any handshake.", depth, PLAIN.join(", "))));
     o.assume("a truncated handshake followed by other bytes is undecodable input (C06's subject); after it nothing is demanded here except (2) and (4)");
     o
 }
